@@ -35,6 +35,9 @@ type Taint struct {
 	cells   map[string]bool // "alloc-ptr/field" cells of local struct variables holding snapshot parts
 	changed bool
 	params  map[*ssa.Parameter]bool
+	// short: tainted values that may alias the snapshot's backing array with a smaller length
+	// (s[:i] without capacity clip, and everything appended to / merged from such a value)
+	short map[ssa.Value]bool
 }
 
 func cellKey(a ssa.Value, field int) string {
@@ -70,7 +73,7 @@ func isSliceOrStructWithSlices(t types.Type) bool {
 }
 
 func computeTaint(p *Prog) *Taint {
-	t := &Taint{p: p, vals: map[ssa.Value]bool{}, cells: map[string]bool{}, params: map[*ssa.Parameter]bool{}}
+	t := &Taint{p: p, vals: map[ssa.Value]bool{}, cells: map[string]bool{}, params: map[*ssa.Parameter]bool{}, short: map[ssa.Value]bool{}}
 	cg := p.CG()
 	for iter := 0; iter < 20; iter++ {
 		t.changed = false
@@ -92,6 +95,13 @@ func (t *Taint) mark(v ssa.Value) {
 	t.changed = true
 }
 
+func (t *Taint) markShort(v ssa.Value) {
+	if !t.short[v] {
+		t.short[v] = true
+		t.changed = true
+	}
+}
+
 func (t *Taint) is(v ssa.Value) bool { return v != nil && t.vals[v] }
 
 func (t *Taint) scan(fn *ssa.Function, cg *CallGraph) {
@@ -106,6 +116,11 @@ func (t *Taint) scan(fn *ssa.Function, cg *CallGraph) {
 			if _, _, ok := publishedAccess(x, atomicLoad); ok {
 				t.mark(x)
 				return
+			}
+			if cc, ok := isBuiltinCall(x, "append"); ok && t.short[cc.Args[0]] {
+				// the result may still alias the shared backing array
+				t.mark(x)
+				t.markShort(x)
 			}
 			// method on a tainted receiver returning something that can hold a slice
 			if rv := recvOf(&x.Call); rv != nil && t.is(rv) && isSliceOrStructWithSlices(x.Type()) {
@@ -156,11 +171,17 @@ func (t *Taint) scan(fn *ssa.Function, cg *CallGraph) {
 		case *ssa.Slice:
 			if t.is(x.X) {
 				t.mark(x)
+				if (x.High != nil && !(x.Max != nil && sameValue(x.Max, x.High))) || t.short[x.X] {
+					t.markShort(x)
+				}
 			}
 		case *ssa.Phi:
 			for _, e := range x.Edges {
 				if t.is(e) {
 					t.mark(x)
+				}
+				if t.short[e] {
+					t.markShort(x)
 				}
 			}
 		case *ssa.Store:
@@ -224,6 +245,9 @@ func (t *Taint) shape(v ssa.Value) sliceShape {
 			}
 		}
 		return sh
+	}
+	if t.short[v] {
+		return sliceShape{tainted: true, resliced: true}
 	}
 	return sliceShape{tainted: t.is(v)}
 }
